@@ -1191,15 +1191,41 @@ def r11_sort_keys_and_vanished_first_subdir(repo=None):
     fn = lview.fn()
     outer = lview.enclosing(lp, (ast.For,))
     if outer is None:
-        raise AnalysisError("%s: the look-back loop is not inside the loop over the selected sub-directories" % lq)
-    tries = [t for t in ast.walk(outer) if isinstance(t, ast.Try) and not any(t is x for x in ast.walk(lp))
+        # the look-back lives in a helper of its own (it returns from inside its loop, so it is not inlined): judge the caller -
+        # the loop over the selected sub-directories that calls that helper; reaching the call is reaching the look-back
+        callers = []
+        for q2, f2 in m.functions.items():
+            if "<locals>" in q2 or "." in q2 or q2 == lq:
+                continue
+            v2 = m.flat(q2, keep=(lq,))
+            for lp2 in [x for x in ast.walk(v2.fn()) if isinstance(x, ast.For)]:
+                cs = [c for c in ast.walk(lp2) if isinstance(c, ast.Call) and pyfront.call_name(c) == lq]
+                if cs and not any(isinstance(x, ast.For) and x is not lp2 and any(c is y for c in cs for y in ast.walk(x)) for x in ast.walk(lp2)):
+                    callers.append((q2, v2, lp2, cs[0]))
+        uniq = {}
+        for q2, v2, lp2, c2 in callers:
+            uniq.setdefault((lp2.lineno, lp2.col_offset), (q2, v2, lp2, c2))
+        callers = list(uniq.values())
+        if len(callers) != 1:
+            raise AnalysisError("%s: the look-back loop is not inside the loop over the selected sub-directories, and the loop that calls "
+                                "it was not found exactly once (%d)" % (lq, len(callers)))
+        lq, lview, outer, call2 = callers[0]
+        g = lview.cfg()
+        lp_nodes = [n.id for n in g.nodes if n.ast is not None and any(call2 is y for y in (ast.walk(n.ast) if not isinstance(
+            n.ast, (ast.For, ast.While, ast.If, ast.Try, ast.With)) else ast.walk(getattr(n.ast, "test", None) or getattr(n.ast, "iter", None) or ast.Pass())))]
+        first_line = call2.lineno
+        inside = lambda t: False
+    else:
+        lp_nodes = [n.id for n in g.nodes if n.ast is lp]
+        first_line = lp.lineno
+        inside = lambda t: any(t is x for x in ast.walk(lp))
+    tries = [t for t in ast.walk(outer) if isinstance(t, ast.Try) and not inside(t)
              and any(isinstance(c, ast.Call) and pyfront.call_name(c) == "os.listdir" for st in t.body for c in ast.walk(st))
-             and t.lineno < lp.lineno]
+             and t.lineno < first_line]
     if not tries:
         raise AnalysisError("%s: the guarded listing of the selected sub-directory (before the look-back) was not found" % lq)
-    lp_nodes = [n.id for n in g.nodes if n.ast is lp]
     if not lp_nodes:
-        raise AnalysisError("%s: look-back loop head not in the CFG" % lq)
+        raise AnalysisError("%s: look-back (loop head / call of its helper) not in the CFG" % lq)
     for t in tries:
         for h in t.handlers:
             starts = [n.id for n in g.nodes if n.ast is not None and h.body and n.ast is h.body[0]]
